@@ -348,4 +348,320 @@ theorem replaceKids_lift {S : Schema} (hts : TextStableP S) {ty tyP : TypeId} {K
     atLevel_lift S hts tyP preT postT tyN aN mN kN mid hL hR hsplit hn hv]
   rfl
 
+/-! ### tokens at the two ends of the ancestors of a position -/
+
+theorem tok_open_at {doc : Node} {pos : Nat} {r : RPos} (h : doc.resolve pos = some r) (d : Nat)
+    (hd : d < r.depth) : ∃ ty a m, (ftoks doc.kids)[(r.entry d).pos]? = some (Tok.op ty a m) := by
+  have R := resolve_resolved h
+  obtain ⟨hc, _⟩ := R.chain d hd
+  obtain ⟨ty, a, m, k, e⟩ := resolve_node_elem h d hd
+  have hw := window_child _ _ _ _ _ (R.window_kids d (by omega)) hc
+  have hp : (r.entry d).pos = r.start d + fsize ((r.node d).kids.take (r.index d)) :=
+    (R.entry d (by omega)).pos_eq
+  rw [← hp, e] at hw
+  have := getElem?_of_window _ _ _ _ hw 0 (by simp [Node.toks])
+  simp only [Nat.add_zero, Node.toks, List.getElem?_cons_zero] at this
+  exact ⟨ty, a, m, this⟩
+
+theorem tok_close_at {doc : Node} {pos : Nat} {r : RPos} (h : doc.resolve pos = some r) (d : Nat)
+    (hd : d < r.depth) :
+    (ftoks doc.kids)[(r.entry d).pos + (fsize (r.node (d + 1)).kids + 1)]? = some Tok.cl := by
+  have R := resolve_resolved h
+  obtain ⟨hc, _⟩ := R.chain d hd
+  obtain ⟨ty, a, m, k, e⟩ := resolve_node_elem h d hd
+  have hw := window_child _ _ _ _ _ (R.window_kids d (by omega)) hc
+  have hp : (r.entry d).pos = r.start d + fsize ((r.node d).kids.take (r.index d)) :=
+    (R.entry d (by omega)).pos_eq
+  rw [← hp, e] at hw
+  have := getElem?_of_window _ _ _ _ hw (fsize k + 1) (by simp [Node.toks, ftoks_length])
+  have ek : (r.node (d + 1)).kids = k := by rw [e]; rfl
+  rw [ek, this]
+  simp [Node.toks, ftoks_length]
+
+/-- every token in `[lo, hi)` is an open token / a close token -/
+def OpsWin (G : List Tok) (lo hi : Nat) : Prop :=
+  ∀ i, lo ≤ i → i < hi → ∃ ty a m, G[i]? = some (Tok.op ty a m)
+def ClsWin (G : List Tok) (lo hi : Nat) : Prop :=
+  ∀ i, lo ≤ i → i < hi → G[i]? = some Tok.cl
+
+theorem closesOpens_of_cls : ∀ (l : List Tok), (∀ x ∈ l, x = Tok.cl) → closesOpens l = true
+  | [], _ => rfl
+  | x :: r, h => by
+    have := h x List.mem_cons_self
+    subst this
+    simp only [closesOpens]
+    exact closesOpens_of_cls r (fun y hy => h y (List.mem_cons_of_mem _ hy))
+
+theorem mem_window {G : List Tok} {lo n : Nat} {x : Tok} (hx : x ∈ (G.drop lo).take n) :
+    ∃ i, lo ≤ i ∧ i < lo + n ∧ G[i]? = some x := by
+  obtain ⟨j, hj, e⟩ := List.getElem_of_mem hx
+  have hj' : j < n := by
+    rw [List.length_take] at hj; omega
+  refine ⟨lo + j, by omega, by omega, ?_⟩
+  have := List.getElem?_eq_getElem hj
+  rw [e, List.getElem?_take_of_lt hj', List.getElem?_drop] at this
+  exact this
+
+theorem OpsWin.closesOpens {G : List Tok} {lo hi : Nat} (h : OpsWin G lo hi) (hle : lo ≤ hi) :
+    closesOpens ((G.drop lo).take (hi - lo)) = true := by
+  apply closesOpens_of_ops
+  simp only [List.all_eq_true]
+  intro x hx
+  obtain ⟨i, h1, h2, h3⟩ := mem_window hx
+  obtain ⟨ty, a, m, e⟩ := h i h1 (by omega)
+  rw [e] at h3
+  simp only [Option.some.injEq] at h3
+  subst h3
+  rfl
+
+theorem ClsWin.closesOpens {G : List Tok} {lo hi : Nat} (h : ClsWin G lo hi) (hle : lo ≤ hi) :
+    closesOpens ((G.drop lo).take (hi - lo)) = true := by
+  apply closesOpens_of_cls
+  intro x hx
+  obtain ⟨i, h1, h2, h3⟩ := mem_window hx
+  have e := h i h1 (by omega)
+  rw [e] at h3
+  simp only [Option.some.injEq] at h3
+  exact h3.symm
+
+/-! ### the left loop of `lift` and of the guard, together -/
+
+/-- state of the left loops with `n` levels to go (the levels above `target + n` are done): either nothing is
+    split yet — the outer position `gs - moved` is the boundary in front of the path's child at level `target + n` —
+    or the node at level `target + n + 1` is cut at `gs - moved` (`CutL`, as far as the guard's tests passed) -/
+def LInv (S : Schema) (doc : Node) (f : RPos) (gs depth target n : Nat) (frag : List Node) (opened moved : Nat)
+    (sp : Bool) (acc : Option Node) (ok : Bool) : Prop :=
+  moved ≤ gs ∧ OpsWin (ftoks doc.kids) (gs - moved) gs ∧
+  ((sp = false ∧ acc = none ∧ frag = [] ∧ opened = 0 ∧
+      gs - moved = f.start (target + n) + fsize ((f.node (target + n)).kids.take (f.index (target + n))))
+   ∨ (sp = true ∧ target + n + 1 ≤ depth ∧ ∃ ty a m kids W XL, f.node (target + n + 1) = .elem ty a m kids ∧
+        frag = [.elem ty a m W] ∧ acc = some (.elem ty a m XL) ∧ opened = 1 + spineL W ∧
+        f.start (target + n + 1) ≤ gs - moved ∧
+        (ok = true → CutL S ty kids (gs - moved - f.start (target + n + 1)) W XL)))
+
+theorem left_loop (S : Schema) {doc : Node} {a : Nat} {f : RPos} (hf : doc.resolve a = some f)
+    (gs depth target : Nat) (hdf : depth ≤ f.depth) :
+    ∀ (n : Nat) (frag : List Node) (opened moved : Nat) (sp : Bool) (acc : Option Node) (ok : Bool),
+      target + n ≤ depth → LInv S doc f gs depth target n frag opened moved sp acc ok →
+      ∃ frag' opened' moved' acc' ok',
+        liftSide f.node (fun d => decide (0 < f.index d)) target n frag opened moved sp = (frag', opened', moved') ∧
+        liftPieces S f.node (fun d => decide (0 < f.index d)) (fun d => (f.node d).kids.take (f.index d))
+          (fun k c => k ++ c) target n acc ok = (acc', ok') ∧
+        LInv S doc f gs depth target 0 frag' opened' moved' acc'.isSome acc' ok'
+  | 0, frag, opened, moved, sp, acc, ok, _, h => by
+    refine ⟨frag, opened, moved, acc, ok, rfl, rfl, ?_⟩
+    obtain ⟨h1, h2, h3⟩ := h
+    refine ⟨h1, h2, ?_⟩
+    rcases h3 with ⟨_, e, h3⟩ | ⟨_, hd, ty, a', m, kids, W, XL, e1, e2, e3, h3⟩
+    · exact .inl ⟨by simp [e], e, h3⟩
+    · exact .inr ⟨by simp [e3], hd, ty, a', m, kids, W, XL, e1, e2, e3, h3⟩
+  | n + 1, frag, opened, moved, sp, acc, ok, hn, h => by
+    have R := resolve_resolved hf
+    obtain ⟨h1, h2, h3⟩ := h
+    -- the level this iteration looks at
+    obtain ⟨d, hd⟩ : ∃ d, target + n + 1 = d := ⟨_, rfl⟩
+    have hd1 : 1 ≤ d := by omega
+    obtain ⟨tyD, aD, mD, kD, eD⟩ := resolve_node_elem hf (d - 1) (by omega)
+    rw [show d - 1 + 1 = d by omega] at eD
+    have hkD : (f.node d).kids = kD := by rw [eD]; rfl
+    have hpos : (f.entry (d - 1)).pos = f.start (d - 1) + fsize ((f.node (d - 1)).kids.take (f.index (d - 1))) :=
+      (R.entry (d - 1) (by omega)).pos_eq
+    have hstart : f.start d = (f.entry (d - 1)).pos + 1 := by
+      have := Resolved.start_succ f (d - 1)
+      rwa [show d - 1 + 1 = d by omega] at this
+    unfold liftSide liftPieces
+    simp only [show target + n + 1 = d from hd, show target + (n + 1) = d by omega,
+      show target + (n + 1) + 1 = d + 1 by omega] at h3 ⊢
+    rcases h3 with ⟨rfl, rfl, rfl, rfl, hb⟩ | ⟨rfl, hdd, ty, a', m, kids, W, XL, e1, rfl, rfl, rfl, hst, hcut⟩
+    · by_cases hidx : 0 < f.index d
+      · -- the split starts here
+        simp only [Bool.false_or, hidx, decide_true, if_true, Option.isSome_none, Option.toList_none,
+          List.append_nil, Bool.or_true]
+        apply left_loop S hf gs depth target hdf n _ _ _ _ _ _ (by omega)
+        refine ⟨h1, h2, .inr ⟨rfl, by omega, tyD, aD, mD, kD, [], kD.take (f.index d), ?_, ?_, ?_, by simp [spineL],
+          ?_, ?_⟩⟩
+        · rw [hd]; exact eD
+        · simp [eD, Node.withKids]
+        · simp [eD, Node.withKids, Node.kids]
+        · rw [hd, hb]; omega
+        · intro hok
+          simp only [Bool.and_eq_true] at hok
+          have hv := hok.2
+          rw [eD] at hv
+          simp only [Node.kids] at hv
+          have hvv : S.validContent tyD (kD.take (f.index d)) = true := hv
+          have := CutL.edge (S := S) (post := kD.drop (f.index d)) hvv
+          rw [List.take_append_drop] at this
+          rw [hd, hb, hkD, Nat.add_sub_cancel_left]
+          exact this
+      · -- nothing split: step over the open token of the node at `d`
+        have hi0 : f.index d = 0 := by omega
+        simp only [Bool.false_or, hidx, decide_false, Bool.false_eq_true, if_false, Option.isSome_none]
+        apply left_loop S hf gs depth target hdf n _ _ _ _ _ _ (by omega)
+        rw [hi0] at hb
+        simp only [List.take_zero, fsize_nil, Nat.add_zero] at hb
+        obtain ⟨ty, a', m, ht⟩ := tok_open_at hf (d - 1) (by omega)
+        refine ⟨by omega, ?_, .inl ⟨rfl, rfl, rfl, rfl, ?_⟩⟩
+        · intro i hi1 hi2
+          by_cases hi : gs - moved ≤ i
+          · exact h2 i hi hi2
+          · have : i = (f.entry (d - 1)).pos := by omega
+            rw [this]; exact ⟨ty, a', m, ht⟩
+        · rw [show target + n = d - 1 by omega, ← hpos]; omega
+    · -- already splitting: one more level is split
+      simp only [Bool.true_or, if_true, Option.isSome_some, Option.toList_some]
+      apply left_loop S hf gs depth target hdf n _ _ _ _ _ _ (by omega)
+      obtain ⟨tyC, aC, mC, kC, eC, hsp, hstC, _, _⟩ := Resolved.level_deep hf d (by omega)
+      rw [e1] at eC
+      simp only [Node.elem.injEq] at eC
+      obtain ⟨rfl, rfl, rfl, rfl⟩ := eC
+      refine ⟨h1, h2, .inr ⟨rfl, by omega, tyD, aD, mD, kD, [.elem ty a' m W],
+        kD.take (f.index d) ++ [.elem ty a' m XL], ?_, ?_, ?_, by simp [spineL]; omega, ?_, ?_⟩⟩
+      · rw [hd]; exact eD
+      · simp [eD, Node.withKids]
+      · simp [eD, Node.withKids, Node.kids]
+      · rw [hd]; omega
+      · intro hok
+        simp only [Bool.and_eq_true] at hok
+        have hv := hok.2
+        rw [eD] at hv
+        simp only [Node.kids] at hv
+        have hvv : S.validContent tyD (kD.take (f.index d) ++ [.elem ty a' m XL]) = true := hv
+        have := CutL.deep (S := S) (a := a') (m := m) (pre := kD.take (f.index d))
+          (post := kD.drop (f.index d + 1)) (hcut hok.1) hvv
+        rw [hkD] at hsp hstC
+        rw [← hsp] at this
+        rw [hd]
+        have e : gs - moved - f.start d
+            = fsize (kD.take (f.index d)) + 1 + (gs - moved - f.start (d + 1)) := by omega
+        rw [e]
+        exact this
+
+/-! ### the right loop of `lift` and of the guard, together -/
+
+/-- state of the right loops with `n` levels to go: either nothing is split yet — the outer position `ge + moved`
+    is the boundary behind the range's last child (at the range's depth) or behind the path's child at level
+    `target + n` — or the node at level `target + n + 1` is cut at `ge + moved` (`CutR`) -/
+def RInv (S : Schema) (doc : Node) (t : RPos) (ge depth target n : Nat) (frag : List Node) (opened moved : Nat)
+    (sp : Bool) (acc : Option Node) (ok : Bool) : Prop :=
+  ClsWin (ftoks doc.kids) ge (ge + moved) ∧
+  ((sp = false ∧ acc = none ∧ frag = [] ∧ opened = 0 ∧
+      ge + moved = t.start (target + n) + fsize ((t.node (target + n)).kids.take (t.indexAfter (target + n))))
+   ∨ (sp = true ∧ target + n + 1 ≤ depth ∧ ∃ ty a m kids W XR, t.node (target + n + 1) = .elem ty a m kids ∧
+        frag = [.elem ty a m W] ∧ acc = some (.elem ty a m XR) ∧ opened = 1 + spineL W ∧
+        t.start (target + n + 1) ≤ ge + moved ∧
+        (ok = true → CutR S ty kids (ge + moved - t.start (target + n + 1)) W XR)))
+
+theorem right_loop (S : Schema) {doc : Node} {b : Nat} {t : RPos} (ht : doc.resolve b = some t)
+    (ge depth target : Nat) (hdt : depth ≤ t.depth)
+    (hbR : ∀ d, target < d → d ≤ depth →
+      t.afterT (d + 1) = t.start d + fsize ((t.node d).kids.take (t.indexAfter d))) :
+    ∀ (n : Nat) (frag : List Node) (opened moved : Nat) (sp : Bool) (acc : Option Node) (ok : Bool),
+      target + n ≤ depth → RInv S doc t ge depth target n frag opened moved sp acc ok →
+      ∃ frag' opened' moved' acc' ok',
+        liftSide t.node (fun d => decide (t.afterT (d + 1) < t.end_ d)) target n frag opened moved sp
+          = (frag', opened', moved') ∧
+        liftPieces S t.node (fun d => decide (t.afterT (d + 1) < t.end_ d))
+          (fun d => (t.node d).kids.drop (t.indexAfter d)) (fun k c => c ++ k) target n acc ok = (acc', ok') ∧
+        RInv S doc t ge depth target 0 frag' opened' moved' acc'.isSome acc' ok'
+  | 0, frag, opened, moved, sp, acc, ok, _, h => by
+    refine ⟨frag, opened, moved, acc, ok, rfl, rfl, ?_⟩
+    obtain ⟨h2, h3⟩ := h
+    refine ⟨h2, ?_⟩
+    rcases h3 with ⟨_, e, h3⟩ | ⟨_, hd, ty, a', m, kids, W, XR, e1, e2, e3, h3⟩
+    · exact .inl ⟨by simp [e], e, h3⟩
+    · exact .inr ⟨by simp [e3], hd, ty, a', m, kids, W, XR, e1, e2, e3, h3⟩
+  | n + 1, frag, opened, moved, sp, acc, ok, hn, h => by
+    have R := resolve_resolved ht
+    obtain ⟨h2, h3⟩ := h
+    obtain ⟨d, hd⟩ : ∃ d, target + n + 1 = d := ⟨_, rfl⟩
+    have hd1 : 1 ≤ d := by omega
+    obtain ⟨tyD, aD, mD, kD, eD⟩ := resolve_node_elem ht (d - 1) (by omega)
+    rw [show d - 1 + 1 = d by omega] at eD
+    have hkD : (t.node d).kids = kD := by rw [eD]; rfl
+    have hpos : (t.entry (d - 1)).pos = t.start (d - 1) + fsize ((t.node (d - 1)).kids.take (t.index (d - 1))) :=
+      (R.entry (d - 1) (by omega)).pos_eq
+    have hstart : t.start d = (t.entry (d - 1)).pos + 1 := by
+      have := Resolved.start_succ t (d - 1)
+      rwa [show d - 1 + 1 = d by omega] at this
+    have hia : ∀ e, e < depth → t.indexAfter e = t.index e + 1 := by
+      intro e he
+      unfold RPos.indexAfter
+      rw [if_neg (by simp; omega)]
+    have hbd := hbR d (by omega) (by omega)
+    rw [hkD] at hbd
+    unfold liftSide liftPieces
+    simp only [show target + n + 1 = d from hd, show target + (n + 1) = d by omega,
+      show target + (n + 1) + 1 = d + 1 by omega] at h3 ⊢
+    rcases h3 with ⟨rfl, rfl, rfl, rfl, hb⟩ | ⟨rfl, hdd, ty, a', m, kids, W, XR, e1, rfl, rfl, rfl, hst, hcut⟩
+    · rw [hkD] at hb
+      by_cases hlt : t.afterT (d + 1) < t.end_ d
+      · -- the split starts here
+        simp only [Bool.false_or, hlt, decide_true, if_true, Option.isSome_none, Option.toList_none,
+          List.nil_append, Bool.or_true]
+        apply right_loop S ht ge depth target hdt hbR n _ _ _ _ _ _ (by omega)
+        refine ⟨h2, .inr ⟨rfl, by omega, tyD, aD, mD, kD, [], kD.drop (t.indexAfter d), ?_, ?_, ?_,
+          by simp [spineL], ?_, ?_⟩⟩
+        · rw [hd]; exact eD
+        · simp [eD, Node.withKids]
+        · simp [eD, Node.withKids, Node.kids]
+        · rw [hd, hb]; omega
+        · intro hok
+          simp only [Bool.and_eq_true] at hok
+          have hv := hok.2
+          rw [eD] at hv
+          simp only [Node.kids] at hv
+          have hvv : S.validContent tyD (kD.drop (t.indexAfter d)) = true := hv
+          have := CutR.edge (S := S) (pre := kD.take (t.indexAfter d)) hvv
+          rw [List.take_append_drop] at this
+          rw [hd, hb, Nat.add_sub_cancel_left]
+          exact this
+      · -- nothing split: step over the close token of the node at `d`
+        simp only [Bool.false_or, hlt, decide_false, Bool.false_eq_true, if_false, Option.isSome_none]
+        apply right_loop S ht ge depth target hdt hbR n _ _ _ _ _ _ (by omega)
+        have hle := fsize_take_le kD (t.indexAfter d)
+        have hend : t.end_ d = t.start d + fsize kD := by rw [RPos.end_, hkD]
+        have hfull : fsize (kD.take (t.indexAfter d)) = fsize kD := by omega
+        have hcl := tok_close_at ht (d - 1) (by omega)
+        rw [show d - 1 + 1 = d by omega, hkD] at hcl
+        obtain ⟨hc, _⟩ := R.chain (d - 1) (by omega)
+        rw [show d - 1 + 1 = d by omega] at hc
+        have hts := fsize_take_succ _ _ _ hc
+        have hsz : (t.node d).size = 2 + fsize kD := by rw [eD]; simp
+        refine ⟨?_, .inl ⟨rfl, rfl, rfl, rfl, ?_⟩⟩
+        · intro i hi1 hi2
+          by_cases hi : i < ge + moved
+          · exact h2 i hi1 hi
+          · have : i = (t.entry (d - 1)).pos + (fsize kD + 1) := by omega
+            rw [this]; exact hcl
+        · rw [show target + n = d - 1 by omega, hia (d - 1) (by omega), hts, hsz]; omega
+    · -- already splitting: one more level is split
+      simp only [Bool.true_or, if_true, Option.isSome_some, Option.toList_some]
+      apply right_loop S ht ge depth target hdt hbR n _ _ _ _ _ _ (by omega)
+      obtain ⟨tyC, aC, mC, kC, eC, hsp, hstC, _, _⟩ := Resolved.level_deep ht d (by omega)
+      rw [e1] at eC
+      simp only [Node.elem.injEq] at eC
+      obtain ⟨rfl, rfl, rfl, rfl⟩ := eC
+      rw [hkD] at hsp hstC
+      refine ⟨h2, .inr ⟨rfl, by omega, tyD, aD, mD, kD, [.elem ty a' m W],
+        .elem ty a' m XR :: kD.drop (t.index d + 1), ?_, ?_, ?_, by simp [spineL]; omega, ?_, ?_⟩⟩
+      · rw [hd]; exact eD
+      · simp [eD, Node.withKids]
+      · simp [eD, Node.withKids, Node.kids, hia d (by omega)]
+      · rw [hd]; omega
+      · intro hok
+        simp only [Bool.and_eq_true] at hok
+        have hv := hok.2
+        rw [eD, hia d (by omega)] at hv
+        simp only [Node.kids] at hv
+        have hvv : S.validContent tyD (.elem ty a' m XR :: kD.drop (t.index d + 1)) = true := hv
+        have := CutR.deep (S := S) (a := a') (m := m) (pre := kD.take (t.index d))
+          (post := kD.drop (t.index d + 1)) (hcut hok.1) hvv
+        rw [← hsp] at this
+        rw [hd]
+        have e : ge + moved - t.start d
+            = fsize (kD.take (t.index d)) + 1 + (ge + moved - t.start (d + 1)) := by omega
+        rw [e]
+        exact this
+
 end PM
